@@ -34,8 +34,8 @@ sys.path.insert(0, os.path.dirname(os.path.abspath(__file__)))
 import t1_enums  # noqa: E402
 
 REPO = os.environ.get("IMB_REPO", "/repo")
-OUT = os.path.join(VERIF, "coq", "Gen", "GenValidate.v")
-COMPDB = os.path.join(VERIF, ".build", "lib", "compile_commands.json")
+OUT = os.path.join(os.environ.get("IMB_COQ_DIR", os.path.join(VERIF, "coq")), "Gen", "GenValidate.v")
+COMPDB = os.path.join(os.environ.get("IMB_LIB_BUILD_DIR", os.path.join(VERIF, ".build", "lib")), "compile_commands.json")
 TUS = ["lib/sse_t1/mb_mgr_sse_t1.c", "lib/avx2_t1/mb_mgr_avx2_t1.c", "lib/avx512_t1/mb_mgr_avx512_t1.c"]
 
 # storage slots of IMB_JOB visible in job_view: (offset, size) -> field
